@@ -8,37 +8,49 @@ import gen_tables
 import gen_outconv
 import gen_guards
 import gen_threads
+import gen_fastpath
 
 REPO = os.environ.get("VERIF_REPO", "/repo")
 GEN = "/verif/coq/Gen"
 
 def main():
     status = {}
+    files = {}
+
+    def note(st, fname):
+        for k in st:
+            files[k] = fname
+        status.update(st)
     text, st = gen_scalar.generate(REPO)
     gen_scalar.write_if_changed(os.path.join(GEN, "Scalar_gen.v"), text)
-    status.update(st)
+    note(st, "Scalar_gen")
     text, st = gen_py.generate(REPO)
     gen_scalar.write_if_changed(os.path.join(GEN, "PyThresh_gen.v"), text)
-    status.update(st)
+    note(st, "PyThresh_gen")
     text, st = gen_colors.generate(REPO)
     gen_scalar.write_if_changed(os.path.join(GEN, "Colors_gen.v"), text)
-    status.update(st)
+    note(st, "Colors_gen")
     text, st = gen_tables.generate(REPO)
     gen_scalar.write_if_changed(os.path.join(GEN, "Tables_gen.v"), text)
-    status.update(st)
+    note(st, "Tables_gen")
     text, st = gen_outconv.generate(REPO)
     gen_scalar.write_if_changed(os.path.join(GEN, "OutConv_gen.v"), text)
-    status.update(st)
+    note(st, "OutConv_gen")
     text, st = gen_threads.generate(REPO)
     gen_scalar.write_if_changed(os.path.join(GEN, "Threads_gen.v"), text)
-    status.update(st)
+    note(st, "Threads_gen")
+    text, st = gen_fastpath.generate(REPO)
+    gen_scalar.write_if_changed(os.path.join(GEN, "FastPath_gen.v"), text)
+    note(st, "FastPath_gen")
     text, st = gen_guards.generate(REPO)
     gen_scalar.write_if_changed(os.path.join(GEN, "Guards_gen.v"), text)
-    status.update(st)
+    note(st, "Guards_gen")
     for k, v in status.items():
         print(k, v)
     with open(os.path.join(GEN, "status.json"), "w") as f:
         json.dump(status, f, indent=1, sort_keys=True)
+    with open(os.path.join(GEN, "status_files.json"), "w") as f:
+        json.dump(files, f, indent=1, sort_keys=True)
 
 if __name__ == "__main__":
     main()
